@@ -467,7 +467,7 @@ to `int` is replaced by the sanitizer report and the crash line, and nothing fol
 
 /-- the product that overflows, as UBSan prints it -/
 def overflowText (h : Int) : String :=
-  s!"call_out.c: signed integer overflow: {N} * {h / (N : Int)} cannot be represented in type 'int'"
+  s!"call_out.c(new_call_out): signed integer overflow: {N} * {h / (N : Int)} cannot be represented in type 'int'"
 
 def cutAtOverflow : List Ev → List Ev
   | [] => []
